@@ -5,8 +5,8 @@ import (
 	"encoding/json"
 	"fmt"
 	"sync"
-	"time"
 	"sync/atomic"
+	"time"
 
 	"github.com/alttpo/snes/emulator"
 
